@@ -607,3 +607,588 @@ Proof.
   destruct (close_fold_ok m (pstore (del kv (1 :: u32be m ++ [16])) (p_commit_mkt m)) _ K0) as [K1 S1].
   split; [exact K1|eapply same7_trans; eassumption].
 Qed.
+
+(** ================= market ids ================= *)
+Lemma next_free_spec : forall fuel kv start id,
+  next_free fuel kv start = Some id -> start < two32 ->
+  id < two32 /\ has kv (k_known id) = false /\
+  (start + N.of_nat fuel <= two32 ->
+   start <= id /\ forall j, start <= j -> j < id -> has kv (k_known j) = true).
+Proof.
+  induction fuel as [|fuel IH]; intros kv start id H Hlt; cbn [next_free] in H; [discriminate|].
+  destruct (has kv (k_known start)) eqn:Eh.
+  - destruct (IH _ _ _ H (mod_lt32 _)) as [A [B C]].
+    split; [exact A|]. split; [exact B|]. intros Hb.
+    assert (Hs : start + 1 < two32).
+    { destruct fuel as [|f]; [cbn in H; discriminate|]. rewrite !Nat2N.inj_succ in Hb. lia. }
+    rewrite N.mod_small in C by exact Hs.
+    destruct C as [C1 C2]; [rewrite Nat2N.inj_succ in Hb; lia|].
+    split; [lia|]. intros j Hj1 Hj2.
+    destruct (N.eq_dec j start) as [->|Hne]; [exact Eh|]. apply C2; lia.
+  - injection H as <-. split; [exact Hlt|]. split; [exact Eh|]. intros _.
+    split; [lia|]. intros j Hj1 Hj2. lia.
+Qed.
+
+Lemma next_market_id_spec : forall kv kv' mid,
+  next_market_id kv = Some (kv', mid) ->
+  mid < two32 /\ has kv (k_known mid) = false /\ last_market_id kv' = mid /\
+  (last_market_id kv + N.of_nat (length kv) + 1 < two32 ->
+     last_market_id kv < mid /\ forall j, last_market_id kv < j -> j < mid -> has kv (k_known j) = true).
+Proof.
+  intros kv kv' mid H. unfold next_market_id in H.
+  destruct (next_free (S (length kv)) kv ((last_market_id kv + 1) mod two32)) as [id|] eqn:E;
+    [|discriminate].
+  injection H as <- <-.
+  destruct (next_free_spec _ _ _ _ E (mod_lt32 _)) as [A [B C]].
+  split; [exact A|]. split; [exact B|]. split.
+  - unfold last_market_id. rewrite gse. rewrite u32_from_bz_u32be by exact A. reflexivity.
+  - intros Hb. rewrite N.mod_small in C by lia.
+    destruct C as [C1 C2]; [rewrite Nat2N.inj_succ; lia|].
+    split; [lia|]. intros j Hj1 Hj2. apply C2; lia.
+Qed.
+
+(** ---- the invariant of reachable states; [L] = the market ids created so far ---- *)
+Record CInv (L : list N) (s : cstate) : Prop := {
+  ci_KI : KI (cs_kv s);
+  ci_known : forall r v, get (cs_kv s) (7 :: r) = Some v ->
+     exists m, m < two32 /\ r = u32be m /\ In m L;
+  ci_L : forall m, In m L ->
+     m < two32 /\ In m (cs_accts s) /\ get (cs_kv s) (k_known m) <> None;
+  ci_nodup : NoDup L }.
+
+Lemma CInv_init : CInv [] cinit.
+Proof.
+  constructor; cbn [cs_kv cs_accts cinit].
+  - exact KI_nil.
+  - intros r v H. discriminate.
+  - intros m [].
+  - constructor.
+Qed.
+
+Lemma CInv_lift : forall L s kv', CInv L s -> KI kv' -> same7 (cs_kv s) kv' -> CInv L (with_kv s kv').
+Proof.
+  intros L s kv' HI K S. constructor; cbn [with_kv cs_kv cs_accts].
+  - exact K.
+  - intros r v G. rewrite S in G. exact (ci_known _ _ HI _ _ G).
+  - intros m Hm. destruct (ci_L _ _ HI _ Hm) as [A [B C]].
+    split; [exact A|]. split; [exact B|]. rewrite (same7_known _ _ m S). exact C.
+  - exact (ci_nodup _ _ HI).
+Qed.
+
+Lemma NoDup_snoc : forall (A : Type) (l : list A) x, NoDup l -> ~ In x l -> NoDup (l ++ [x]).
+Proof.
+  intros A l x. induction l as [|y l IH]; intros Hn Hx; cbn [app].
+  - constructor; [intros []|constructor].
+  - inversion Hn as [|z l' Hy Hl]; subst. constructor.
+    + intros Hin. apply in_app_or in Hin. destruct Hin as [Hin|[->|[]]]; [contradiction|].
+      apply Hx. left. reflexivity.
+    + apply IH; [exact Hl|]. intros Hin. apply Hx. right. exact Hin.
+Qed.
+
+Lemma mem_id_false : forall x l, mem_id x l = false -> ~ In x l.
+Proof.
+  intros x l H Hin. unfold mem_id in H.
+  assert (E : existsb (N.eqb x) l = true).
+  { apply existsb_exists. exists x. split; [exact Hin|apply N.eqb_refl]. }
+  congruence.
+Qed.
+
+Lemma create_market_inv : forall L s id acc s' mid,
+  CInv L s -> create_market s id acc = Some (s', mid) ->
+  CInv (L ++ [mid]) s' /\ mid < two32 /\ ~ In mid L /\ (id <> 0 -> mid = id).
+Proof.
+  intros L s id acc s' mid HI H. unfold create_market in H.
+  destruct (id <? two32) eqn:Eid; cbn [negb] in H; [|discriminate]. apply N.ltb_lt in Eid.
+  destruct (if id =? 0 then next_market_id (cs_kv s) else Some (cs_kv s, id)) as [[kv1 mid0]|] eqn:E1;
+    [|discriminate].
+  destruct (mem_id mid0 (cs_accts s)) eqn:Em; [discriminate|].
+  apply mem_id_false in Em.
+  injection H as <- <-.
+  pose proof (ci_KI _ _ HI) as HK.
+  assert (H1 : KI kv1 /\ same7 (cs_kv s) kv1 /\ mid0 < two32 /\ (id <> 0 -> mid0 = id)).
+  { destruct (id =? 0) eqn:E0.
+    - apply N.eqb_eq in E0. pose proof E1 as E1'. apply next_market_id_spec in E1'.
+      destruct E1' as [A _]. unfold next_market_id in E1.
+      destruct (next_free (S (length (cs_kv s))) (cs_kv s) ((last_market_id (cs_kv s) + 1) mod two32))
+        as [n|]; [|discriminate].
+      injection E1 as <- <-. unfold k_last_mkt.
+      destruct (KI_set_other (cs_kv s) 6 [] (CRaw (u32be n)) HK) as [K [_ S]]; [discriminate|].
+      split; [exact K|]. split; [apply S; discriminate|]. split; [exact A|congruence].
+    - injection E1 as <- <-. split; [exact HK|]. split; [apply same7_refl|]. split; [exact Eid|auto]. }
+  destruct H1 as [K1 [S1 [Hmid Hid]]].
+  assert (HnL : ~ In mid0 L).
+  { intros Hin. apply Em. exact (proj1 (proj2 (ci_L _ _ HI _ Hin))). }
+  unfold k_known at 1 2. unfold k_accepting.
+  destruct (KI_set_other kv1 7 (u32be mid0) (CRaw []) K1) as [K2 [M2 _]]; [discriminate|].
+  set (kv2 := set kv1 (7 :: u32be mid0) (CRaw [])) in *.
+  assert (H3 : KI (if acc then set kv2 (1 :: u32be mid0 ++ [16]) (CRaw [])
+                   else del kv2 (1 :: u32be mid0 ++ [16])) /\
+               same7 kv2 (if acc then set kv2 (1 :: u32be mid0 ++ [16]) (CRaw [])
+                          else del kv2 (1 :: u32be mid0 ++ [16]))).
+  { destruct acc.
+    - destruct (KI_set_other kv2 1 (u32be mid0 ++ [16]) (CRaw []) K2) as [K [_ S]]; [discriminate|].
+      split; [exact K|apply S; discriminate].
+    - apply KI_del_other; [exact K2|discriminate|discriminate]. }
+  destruct H3 as [K3 S3].
+  set (kv3 := if acc then set kv2 (1 :: u32be mid0 ++ [16]) (CRaw [])
+              else del kv2 (1 :: u32be mid0 ++ [16])) in *.
+  assert (G7 : forall r, get kv3 (7 :: r) =
+                         if key_eqb (7 :: r) (7 :: u32be mid0) then Some (CRaw []) else get (cs_kv s) (7 :: r)).
+  { intros r. rewrite S3. unfold kv2. rewrite get_set. rewrite S1. reflexivity. }
+  split; [|split; [exact Hmid|split; [exact HnL|exact Hid]]].
+  constructor; cbn [cs_kv cs_accts].
+  - exact K3.
+  - intros r v G. rewrite G7 in G.
+    destruct (key_eqb (7 :: r) (7 :: u32be mid0)) eqn:E.
+    + apply key_eqb_eq in E. injection E as ->. exists mid0.
+      split; [exact Hmid|]. split; [reflexivity|]. apply in_or_app. right. left. reflexivity.
+    + destruct (ci_known _ _ HI _ _ G) as [m [A [B C]]]. exists m.
+      split; [exact A|]. split; [exact B|]. apply in_or_app. left. exact C.
+  - intros m Hm. apply in_app_or in Hm. destruct Hm as [Hm|[<-|[]]].
+    + destruct (ci_L _ _ HI _ Hm) as [A [B C]]. split; [exact A|]. split; [right; exact B|].
+      unfold k_known in *. rewrite G7. destruct (key_eqb (7 :: u32be m) (7 :: u32be mid0)); [discriminate|exact C].
+    + split; [exact Hmid|]. split; [left; reflexivity|].
+      unfold k_known. rewrite G7, key_eqb_refl. discriminate.
+  - apply NoDup_snoc; [exact (ci_nodup _ _ HI)|exact HnL].
+Qed.
+
+Definition created1 (s : cstate) (o : cop) : list N :=
+  match o with
+  | CMarketCreate id acc => match create_market s id acc with Some (_, mid) => [mid] | None => [] end
+  | _ => []
+  end.
+
+Lemma markets_created_cons : forall s o r,
+  markets_created_from s (o :: r) = created1 s o ++ markets_created_from (fst (cstep s o)) r.
+Proof. reflexivity. Qed.
+
+Lemma cstep_inv : forall L s o, CInv L s -> CInv (L ++ created1 s o) (fst (cstep s o)).
+Proof.
+  intros L s o HI. pose proof (ci_KI _ _ HI) as HK.
+  destruct o as [id acc|id|m b|m a amt|m es|m ins outs fees|m]; cbn [created1 cstep];
+    rewrite ?app_nil_r.
+  - destruct (create_market s id acc) as [[s' mid]|] eqn:E; cbn [fst].
+    + exact (proj1 (create_market_inv _ _ _ _ _ _ HI E)).
+    + rewrite app_nil_r. exact HI.
+  - destruct (negb (id <? two32)); cbn [fst]; [exact HI|].
+    constructor; cbn [cs_kv cs_accts].
+    + exact HK.
+    + exact (ci_known _ _ HI).
+    + intros m Hm. destruct (ci_L _ _ HI _ Hm) as [A [B C]].
+      split; [exact A|]. split; [|exact C].
+      destruct (mem_id id (cs_accts s)); [exact B|right; exact B].
+    + exact (ci_nodup _ _ HI).
+  - destruct (set_accepting (cs_kv s) m b) as [kv'|] eqn:E; cbn [fst]; [|exact HI].
+    destruct (set_accepting_ok _ _ _ _ HK E) as [K S]. apply CInv_lift; assumption.
+  - destruct (commit_funds (cs_kv s) m a amt) as [kv'|] eqn:E; cbn [fst]; [|exact HI].
+    destruct (commit_funds_ok _ _ _ _ _ HK E) as [K S]. apply CInv_lift; assumption.
+  - destruct (release_commitments (cs_kv s) m es) as [kv'|] eqn:E; cbn [fst]; [|exact HI].
+    destruct (release_commitments_ok _ _ _ _ HK E) as [K S]. apply CInv_lift; assumption.
+  - destruct (settle_commitments (cs_kv s) m ins outs fees) as [kv'|] eqn:E; cbn [fst]; [|exact HI].
+    destruct (settle_commitments_ok _ _ _ _ _ _ HK E) as [K S]. apply CInv_lift; assumption.
+  - destruct (close_commitments_ok (cs_kv s) m HK) as [K S]. apply CInv_lift; assumption.
+Qed.
+
+Lemma crun_from_inv : forall ops L s, CInv L s ->
+  CInv (L ++ markets_created_from s ops) (crun_from s ops).
+Proof.
+  induction ops as [|o ops IH]; intros L s HI.
+  - cbn [markets_created_from]. rewrite app_nil_r. exact HI.
+  - rewrite markets_created_cons, app_assoc.
+    change (crun_from s (o :: ops)) with (crun_from (fst (cstep s o)) ops).
+    apply IH. apply cstep_inv. exact HI.
+Qed.
+
+Lemma crun_inv : forall ops, CInv (markets_created_from cinit ops) (crun ops).
+Proof. intros ops. exact (crun_from_inv ops [] cinit CInv_init). Qed.
+
+(** ---- the known-market listing ---- *)
+Lemma known_entry : forall L s r v, CInv L s -> In (r, v) (pstore (cs_kv s) p_known) ->
+  get (cs_kv s) (7 :: r) = Some v /\ exists m, m < two32 /\ r = u32be m /\ In m L.
+Proof.
+  intros L s r v HI Hin. apply pstore_In in Hin. unfold p_known in Hin. cbn [app] in Hin.
+  apply (sorted_In_get _ _ _ (proj1 (ci_KI _ _ HI))) in Hin.
+  split; [exact Hin|exact (ci_known _ _ HI _ _ Hin)].
+Qed.
+
+Lemma known_iff : forall L s m, CInv L s -> (In m (known_markets (cs_kv s)) <-> In m L).
+Proof.
+  intros L s m HI. unfold known_markets. rewrite in_flat_map. split.
+  - intros [[r v] [Hin H]]. destruct (known_entry _ _ _ _ HI Hin) as [_ [m' [A [-> C]]]].
+    cbn [fst] in H. rewrite u32_from_bz_u32be in H by exact A. destruct H as [<-|[]]. exact C.
+  - intros Hm. destruct (ci_L _ _ HI _ Hm) as [A [_ C]].
+    destruct (get (cs_kv s) (k_known m)) as [v|] eqn:G; [|congruence].
+    exists (u32be m, v). split.
+    + apply pstore_In. apply get_In. exact G.
+    + cbn [fst]. rewrite u32_from_bz_u32be by exact A. left. reflexivity.
+Qed.
+
+Lemma kn_sorted_gen : forall (l : list (key * cval)), sorted_keys l ->
+  (forall r v, In (r, v) l -> exists x, x < two32 /\ r = u32be x) ->
+  StronglySorted N.lt
+    (flat_map (fun e => match u32_from_bz (fst e) with Some m => [m] | None => [] end) l).
+Proof.
+  induction l as [|[k v] l IH]; intros Hs Hf; [constructor|].
+  assert (IH' : StronglySorted N.lt
+    (flat_map (fun e => match u32_from_bz (fst e) with Some m => [m] | None => [] end) l)).
+  { apply IH; [exact (sorted_tail _ _ Hs)|]. intros r v0 Hin. apply (Hf r v0). right. exact Hin. }
+  cbn [flat_map fst].
+  destruct (Hf k v (or_introl eq_refl)) as [x [Hx ->]].
+  rewrite u32_from_bz_u32be by exact Hx. cbn [app].
+  constructor; [exact IH'|]. apply Forall_forall. intros y Hy.
+  apply in_flat_map in Hy. destruct Hy as [[k' v'] [Hin Hy]]. cbn [fst] in Hy.
+  destruct (Hf k' v' (or_intror Hin)) as [x' [Hx' ->]].
+  rewrite u32_from_bz_u32be in Hy by exact Hx'. destruct Hy as [<-|[]].
+  pose proof (sorted_head_lt _ _ _ Hs _ _ Hin) as Hlt.
+  unfold key_lt, u32be in Hlt. rewrite !N.mod_small in Hlt by assumption.
+  rewrite be_compare in Hlt by (rewrite <- two32_pow; assumption). exact Hlt.
+Qed.
+
+Lemma known_sorted : forall L s, CInv L s -> StronglySorted N.lt (known_markets (cs_kv s)).
+Proof.
+  intros L s HI. unfold known_markets. apply kn_sorted_gen.
+  - apply pstore_sorted. exact (proj1 (ci_KI _ _ HI)).
+  - intros r v Hin. destruct (known_entry _ _ _ _ HI Hin) as [_ [m [A [B _]]]]. exists m. auto.
+Qed.
+
+Lemma market_ids : forall ops, let s := crun ops in
+  NoDup (markets_created_from cinit ops) /\
+  StronglySorted N.lt (known_markets (cs_kv s)) /\
+  (forall m, m < two32 -> (In m (known_markets (cs_kv s)) <-> In m (markets_created_from cinit ops))) /\
+  (forall m, In m (markets_created_from cinit ops) -> m < two32 /\ In m (cs_accts s)).
+Proof.
+  intros ops s. pose proof (crun_inv ops : CInv _ s) as HI. clearbody s.
+  split; [exact (ci_nodup _ _ HI)|]. split; [exact (known_sorted _ _ HI)|]. split.
+  - intros m _. apply known_iff. exact HI.
+  - intros m Hm. destruct (ci_L _ _ HI _ Hm) as [A [B _]]. split; assumption.
+Qed.
+
+Lemma create_market_fresh : forall ops id acc s' mid,
+  create_market (crun ops) id acc = Some (s', mid) ->
+  mid < two32 /\
+  ~ In mid (known_markets (cs_kv (crun ops))) /\
+  In mid (known_markets (cs_kv s')) /\
+  (id <> 0 -> mid = id) /\
+  (forall m, In m (known_markets (cs_kv (crun ops))) -> In m (known_markets (cs_kv s'))).
+Proof.
+  intros ops id acc s' mid H. pose proof (crun_inv ops) as HI.
+  destruct (create_market_inv _ _ _ _ _ _ HI H) as [HI' [A [B C]]].
+  split; [exact A|]. split; [rewrite (known_iff _ _ _ HI); exact B|].
+  split; [apply (known_iff _ _ _ HI'); apply in_or_app; right; left; reflexivity|].
+  split; [exact C|]. intros m Hm. apply (known_iff _ _ _ HI'). apply in_or_app. left.
+  apply (known_iff _ _ _ HI). exact Hm.
+Qed.
+
+(** ================= (C) the commitment listings ================= *)
+Lemma coe_good : forall a c, a <> [] -> cvalid c = true -> c <> [] ->
+  commitment_of_entry (len_prefix a, CCoins c) = [(a, c)].
+Proof.
+  intros a c Ha Hv Hne. unfold commitment_of_entry. cbn [fst snd].
+  rewrite parse_len_prefix by exact Ha. rewrite cvalid_ne_nonzero by assumption. reflexivity.
+Qed.
+
+Lemma mkt_entry_c : forall kv m r v, KI kv -> In (r, v) (pstore kv (p_commit_mkt m)) ->
+  exists a c, a <> [] /\ r = len_prefix a /\ v = CCoins c /\ cvalid c = true /\ c <> [] /\
+              get kv (k_commit m a) = Some (CCoins c) /\ commitment_of_entry (r, v) = [(a, c)].
+Proof.
+  intros kv m r v HK Hin. apply pstore_In in Hin.
+  change (p_commit_mkt m ++ r) with (99 :: (u32be m ++ r)) in Hin.
+  apply (sorted_In_get _ _ _ (proj1 HK)) in Hin.
+  destruct (proj2 HK _ _ Hin) as [m' [a [c [H1 [H2 [H3 [H4 [H5 [H6 H7]]]]]]]]].
+  apply u32be_app_inj in H3. destruct H3 as [_ ->]. subst v.
+  exists a, c. split; [exact H2|]. split; [reflexivity|]. split; [reflexivity|].
+  split; [exact H5|]. split; [exact H6|].
+  split; [rewrite k_commit_eq; exact Hin|apply coe_good; assumption].
+Qed.
+
+Lemma all_entry_c : forall kv r v, KI kv -> In (r, v) (pstore kv p_commit_all) ->
+  exists m a c, m < two32 /\ a <> [] /\ r = u32be m ++ len_prefix a /\ v = CCoins c /\
+                cvalid c = true /\ c <> [] /\
+                get kv (k_commit m a) = Some (CCoins c) /\
+                commitment_of_entry_all (r, v) = [(m, a, c)].
+Proof.
+  intros kv r v HK Hin. apply pstore_In in Hin.
+  change (p_commit_all ++ r) with (99 :: r) in Hin.
+  apply (sorted_In_get _ _ _ (proj1 HK)) in Hin.
+  destruct (proj2 HK _ _ Hin) as [m [a [c [H1 [H2 [H3 [H4 [H5 [H6 H7]]]]]]]]].
+  subst r v. exists m, a, c. split; [exact H1|]. split; [exact H2|]. split; [reflexivity|].
+  split; [reflexivity|]. split; [exact H5|]. split; [exact H6|].
+  split; [rewrite k_commit_eq; exact Hin|].
+  unfold commitment_of_entry_all. cbn [fst snd].
+  assert (Hl : Nat.ltb (length (u32be m ++ len_prefix a)) 6 = false).
+  { apply Nat.ltb_ge. rewrite app_length, u32be_length. unfold len_prefix. cbn [length].
+    destruct a; [congruence|cbn [length]; lia]. }
+  rewrite Hl, firstn4_u32, skipn4_u32, decode_u32be by exact H1.
+  rewrite coe_good by assumption. reflexivity.
+Qed.
+
+Lemma flat_map_single : forall (A B : Type) (g : A -> list B) (h : A -> B) l,
+  (forall e, In e l -> g e = [h e]) -> flat_map g l = map h l.
+Proof.
+  intros A B g h. induction l as [|e l IH]; intros H; [reflexivity|].
+  cbn [flat_map map]. rewrite (H e (or_introl eq_refl)). cbn [app]. f_equal.
+  apply IH. intros e' He'. apply H. right. exact He'.
+Qed.
+
+Lemma nodup_map_via : forall (A B C : Type) (f : A -> C) (g : A -> B) (k : B -> C) l,
+  NoDup (map f l) -> (forall x, In x l -> f x = k (g x)) -> NoDup (map g l).
+Proof.
+  intros A B C f g k. induction l as [|x l IH]; intros Hn H; cbn [map]; [constructor|].
+  cbn [map] in Hn. inversion Hn as [|y l' Hx Hl]; subst. constructor.
+  - intros Hin. apply in_map_iff in Hin. destruct Hin as [y [Ey Hy]].
+    apply Hx. apply in_map_iff. exists y. split; [|exact Hy].
+    rewrite (H y (or_intror Hy)), (H x (or_introl eq_refl)), Ey. reflexivity.
+  - apply IH; [exact Hl|]. intros y Hy. apply H. right. exact Hy.
+Qed.
+
+Lemma market_ok : forall kv m, KI kv ->
+  NoDup (map fst (market_commitments kv m)) /\
+  forall a c, In (a, c) (market_commitments kv m) <->
+              (a <> [] /\ c <> [] /\ get_commitment kv m a = c).
+Proof.
+  intros kv m HK. split.
+  - unfold market_commitments.
+    rewrite (flat_map_single (key * cval) _ commitment_of_entry
+               (fun e => hd ([], []) (commitment_of_entry e))).
+    + rewrite map_map.
+      apply (nodup_map_via (key * cval) _ _ fst _ len_prefix).
+      * apply sorted_NoDup_keys. apply pstore_sorted. exact (proj1 HK).
+      * intros [r v] Hin. destruct (mkt_entry_c _ _ _ _ HK Hin) as [a [c [_ [Hr [_ [_ [_ [_ E]]]]]]]].
+        cbv beta. rewrite E. cbn [hd fst]. exact Hr.
+    + intros [r v] Hin. destruct (mkt_entry_c _ _ _ _ HK Hin) as [a [c [_ [_ [_ [_ [_ [_ E]]]]]]]].
+      cbv beta. rewrite E. reflexivity.
+  - intros a c. unfold market_commitments. rewrite in_flat_map. split.
+    + intros [[r v] [Hin H]].
+      destruct (mkt_entry_c _ _ _ _ HK Hin) as [a0 [c0 [Ha [_ [_ [_ [Hne [G E]]]]]]]].
+      rewrite E in H. destruct H as [H|[]]. injection H as <- <-.
+      split; [exact Ha|]. split; [exact Hne|]. apply get_commitment_some; assumption.
+    + intros [Ha [Hne G]]. apply get_commitment_some in G; [|exact Hne].
+      destruct (commit_entry _ _ _ _ HK G) as [_ [c0 [Ec [Hv _]]]]. injection Ec as <-.
+      exists (len_prefix a, CCoins c). split.
+      * apply pstore_In. apply get_In. exact G.
+      * rewrite coe_good by assumption. left. reflexivity.
+Qed.
+
+Lemma all_ok_c : forall kv, KI kv ->
+  NoDup (map fst (all_commitments kv)) /\
+  (forall m a c, In (m, a, c) (all_commitments kv) -> m < two32) /\
+  forall m a c, m < two32 ->
+    (In (m, a, c) (all_commitments kv) <-> (a <> [] /\ c <> [] /\ get_commitment kv m a = c)).
+Proof.
+  intros kv HK. split; [|split].
+  - unfold all_commitments.
+    rewrite (flat_map_single (key * cval) _ commitment_of_entry_all
+               (fun e => hd (0, [], []) (commitment_of_entry_all e))).
+    + rewrite map_map.
+      apply (nodup_map_via (key * cval) _ _ fst _ (fun ma => u32be (fst ma) ++ len_prefix (snd ma))).
+      * apply sorted_NoDup_keys. apply pstore_sorted. exact (proj1 HK).
+      * intros [r v] Hin.
+        destruct (all_entry_c _ _ _ HK Hin) as [m [a [c [_ [_ [Hr [_ [_ [_ [_ E]]]]]]]]]].
+        cbv beta. rewrite E. cbn [hd fst snd]. exact Hr.
+    + intros [r v] Hin.
+      destruct (all_entry_c _ _ _ HK Hin) as [m [a [c [_ [_ [_ [_ [_ [_ [_ E]]]]]]]]]].
+      cbv beta. rewrite E. reflexivity.
+  - intros m a c H. unfold all_commitments in H. apply in_flat_map in H.
+    destruct H as [[r v] [Hin H]].
+    destruct (all_entry_c _ _ _ HK Hin) as [m0 [a0 [c0 [Hm [_ [_ [_ [_ [_ [_ E]]]]]]]]]].
+    rewrite E in H. destruct H as [H|[]]. injection H as <- <- <-. exact Hm.
+  - intros m a c Hm. unfold all_commitments. rewrite in_flat_map. split.
+    + intros [[r v] [Hin H]].
+      destruct (all_entry_c _ _ _ HK Hin) as [m0 [a0 [c0 [_ [Ha [_ [_ [_ [Hne [G E]]]]]]]]]].
+      rewrite E in H. destruct H as [H|[]]. injection H as <- <- <-.
+      split; [exact Ha|]. split; [exact Hne|]. apply get_commitment_some; assumption.
+    + intros [Ha [Hne G]]. apply get_commitment_some in G; [|exact Hne].
+      exists (@pair key cval (u32be m ++ len_prefix a) (CCoins c)).
+      assert (Hin : In (@pair key cval (u32be m ++ len_prefix a) (CCoins c)) (pstore kv p_commit_all)).
+      { apply pstore_In. apply get_In. exact G. }
+      split; [exact Hin|].
+      destruct (all_entry_c _ _ _ HK Hin) as [m0 [a0 [c0 [Hm0 [_ [Hr [Ec [_ [_ [_ E]]]]]]]]]].
+      rewrite E. left. apply u32be_app_inj in Hr. destruct Hr as [Em Ea].
+      apply u32be_inj in Em; [|assumption|assumption]. apply len_prefix_inj0 in Ea.
+      injection Ec as ->. subst. reflexivity.
+Qed.
+
+Lemma ssorted_nodup : forall l, StronglySorted N.lt l -> NoDup l.
+Proof.
+  induction l as [|x l IH]; intros H; [constructor|].
+  inversion H as [|y l' Hs Hf]; subst. constructor; [|apply IH; exact Hs].
+  intros Hin. rewrite Forall_forall in Hf. specialize (Hf x Hin). lia.
+Qed.
+
+Lemma acct_nodup : forall (g : N -> coins) l, NoDup l ->
+  NoDup (map fst (flat_map (fun m => if cis_zero (g m) then [] else [(m, g m)]) l)).
+Proof.
+  intros g. induction l as [|x l IH]; intros Hn; [constructor|].
+  inversion Hn as [|y l' Hx Hl]; subst. cbn [flat_map].
+  destruct (cis_zero (g x)); cbn [app map fst]; [apply IH; exact Hl|].
+  constructor; [|apply IH; exact Hl].
+  intros Hin. apply in_map_iff in Hin. destruct Hin as [[m c] [Em Hin]]. cbn [fst] in Em. subst m.
+  apply in_flat_map in Hin. destruct Hin as [m' [Hm' Hin]].
+  destruct (cis_zero (g m')); [destruct Hin|]. destruct Hin as [E|[]].
+  injection E as -> _. contradiction.
+Qed.
+
+Lemma known_of_get : forall L s m, CInv L s -> m < two32 ->
+  get (cs_kv s) (k_known m) <> None -> In m (known_markets (cs_kv s)).
+Proof.
+  intros L s m HI Hm G. apply (known_iff _ _ _ HI).
+  destruct (get (cs_kv s) (k_known m)) as [v|] eqn:E; [|congruence].
+  unfold k_known in E. destruct (ci_known _ _ HI _ _ E) as [m' [A [B C]]].
+  apply u32be_inj in B; [|assumption|assumption]. subst m'. exact C.
+Qed.
+
+Lemma account_ok : forall L s a, CInv L s ->
+  NoDup (map fst (account_commitments (cs_kv s) a)) /\
+  forall m c, m < two32 ->
+    (In (m, c) (account_commitments (cs_kv s) a) <-> (c <> [] /\ get_commitment (cs_kv s) m a = c)).
+Proof.
+  intros L s a HI. pose proof (ci_KI _ _ HI) as HK. unfold account_commitments. cbv zeta. split.
+  - apply (acct_nodup (fun m => get_commitment (cs_kv s) m a)).
+    apply ssorted_nodup. exact (known_sorted _ _ HI).
+  - intros m c Hm. rewrite in_flat_map. split.
+    + intros [m' [_ H]].
+      destruct (cis_zero (get_commitment (cs_kv s) m' a)) eqn:Ez; [destruct H|].
+      destruct H as [H|[]]. injection H as -> <-.
+      split; [apply cis_zero_false_ne; exact Ez|reflexivity].
+    + intros [Hne G]. exists m.
+      destruct (get_commitment_cases (cs_kv s) m a HK) as [E|[_ [_ [Hv [_ Hk]]]]]; [congruence|].
+      split; [exact (known_of_get _ _ _ HI Hm Hk)|].
+      rewrite cvalid_ne_nonzero; [|exact Hv|congruence]. left. rewrite G. reflexivity.
+Qed.
+
+Lemma commitments_consistent : forall ops, let kv := cs_kv (crun ops) in
+  (forall m, m < two32 ->
+     NoDup (map fst (market_commitments kv m)) /\
+     forall a c, In (a, c) (market_commitments kv m) <-> (a <> [] /\ c <> [] /\ get_commitment kv m a = c)) /\
+  (NoDup (map fst (all_commitments kv)) /\
+   (forall m a c, In (m, a, c) (all_commitments kv) -> m < two32) /\
+   forall m a c, m < two32 -> (In (m, a, c) (all_commitments kv) <-> (a <> [] /\ c <> [] /\ get_commitment kv m a = c))) /\
+  (forall a, a <> [] ->
+     NoDup (map fst (account_commitments kv a)) /\
+     forall m c, m < two32 -> (In (m, c) (account_commitments kv a) <-> (c <> [] /\ get_commitment kv m a = c))) /\
+  (forall m a, m < two32 -> a <> [] -> get_commitment kv m a <> [] ->
+     cvalid (get_commitment kv m a) = true /\ In m (known_markets kv)).
+Proof.
+  intros ops kv. pose proof (crun_inv ops) as HI. pose proof (ci_KI _ _ HI : KI kv) as HK.
+  split; [|split; [|split]].
+  - intros m _. apply market_ok. exact HK.
+  - apply all_ok_c. exact HK.
+  - intros a _. exact (account_ok _ _ a HI).
+  - intros m a Hm _ Hne.
+    destruct (get_commitment_cases kv m a HK) as [E|[_ [_ [Hv [_ Hk]]]]]; [congruence|].
+    split; [exact Hv|exact (known_of_get _ _ _ HI Hm Hk)].
+Qed.
+
+(** ================= (D) paging of the commitment listings ================= *)
+Lemma commit_keys_nonempty : forall ops p k v,
+  (p = p_commit_all \/ exists m, p = p_commit_mkt m) ->
+  In (k, v) (pstore (cs_kv (crun ops)) p) -> k <> [].
+Proof.
+  intros ops p k v Hp Hin. pose proof (ci_KI _ _ (crun_inv ops)) as HK.
+  destruct Hp as [->|[m ->]].
+  - destruct (all_entry_c _ _ _ HK Hin) as [m [a [c [_ [_ [-> _]]]]]].
+    intros E. apply app_eq_nil in E. destruct E as [_ E]. exact (len_prefix_ne _ E).
+  - destruct (mkt_entry_c _ _ _ _ HK Hin) as [a [c [_ [-> _]]]]. apply len_prefix_ne.
+Qed.
+
+Lemma paging_complete_commitments : forall ops p limit reverse fuel,
+  let l := pstore (cs_kv (crun ops)) p in
+  (p = p_commit_all \/ exists m, p = p_commit_mkt m) ->
+  1 <= limit -> N.of_nat (length l) + limit + 1 < two64 -> (length l < fuel)%nat ->
+  follow_keys (fun rq => sdk_paginate l rq) fuel limit reverse [] = Some (if reverse then rev l else l) /\
+  follow_offsets (fun rq => sdk_paginate l rq) fuel limit reverse 0 = Some (if reverse then rev l else l).
+Proof.
+  intros ops p limit reverse fuel l Hp HL Hb Hf.
+  apply sdk_paging_complete; [|intros k v Hin|exact HL|exact Hb|exact Hf].
+  - apply pstore_sorted. exact (proj1 (ci_KI _ _ (crun_inv ops))).
+  - exact (commit_keys_nonempty ops p k v Hp Hin).
+Qed.
+
+Lemma commitment_entries_listed : forall ops, let kv := cs_kv (crun ops) in
+  (forall m e, m < two32 -> In e (pstore kv (p_commit_mkt m)) -> exists a c, commitment_of_entry e = [(a, c)]) /\
+  (forall e, In e (pstore kv p_commit_all) -> exists m a c, commitment_of_entry_all e = [(m, a, c)]).
+Proof.
+  intros ops kv. pose proof (ci_KI _ _ (crun_inv ops) : KI kv) as HK. split.
+  - intros m [r v] _ Hin. destruct (mkt_entry_c _ _ _ _ HK Hin) as [a [c [_ [_ [_ [_ [_ [_ E]]]]]]]].
+    exists a, c. exact E.
+  - intros [r v] Hin. destruct (all_entry_c _ _ _ HK Hin) as [m [a [c [_ [_ [_ [_ [_ [_ [_ E]]]]]]]]]].
+    exists m, a, c. exact E.
+Qed.
+
+(** ================= (E) non-vacuity ================= *)
+Lemma example_chistory_ok :
+  let s := crun example_chistory in
+  markets_created_from cinit example_chistory = [1; 2; 5] /\
+  known_markets (cs_kv s) = [1; 2; 5] /\
+  market_commitments (cs_kv s) 1 = [([1;1;1], [(aaa, 5%Z)]); ([2;2;2], [(bbb, 11%Z)])] /\
+  account_commitments (cs_kv s) [1;1;1] = [(1, [(aaa, 5%Z)]); (5, [(aaa, 1%Z)])] /\
+  market_commitments (cs_kv s) 2 = [].
+Proof. vm_compute. repeat split; reflexivity. Qed.
+
+(** ================= nextMarketID always finds an id ================= *)
+Lemma next_free_none : forall fuel kv id, next_free fuel kv id = None ->
+  forall i, (i < fuel)%nat -> has kv (k_known ((id + N.of_nat i) mod two32)) = true.
+Proof.
+  induction fuel as [|fuel IH]; intros kv id H i Hi; [lia|].
+  cbn [next_free] in H. destruct (has kv (k_known id)) eqn:Eh; [|discriminate].
+  destruct i as [|i].
+  - cbn [N.of_nat]. rewrite N.add_0_r, k_known_mod. exact Eh.
+  - pose proof (IH _ _ H i ltac:(lia)) as Hi'.
+    rewrite N.add_mod_idemp_l in Hi' by exact two32_ne0.
+    replace (id + N.of_nat (S i)) with (id + 1 + N.of_nat i) by lia. exact Hi'.
+Qed.
+
+Lemma mod_cases : forall x, x < 2 * two32 ->
+  x mod two32 = x \/ (two32 <= x /\ x mod two32 = x - two32).
+Proof.
+  intros x Hx. destruct (N.lt_ge_cases x two32) as [H|H].
+  - left. apply N.mod_small. exact H.
+  - right. split; [exact H|].
+    replace x with ((x - two32) + 1 * two32) at 1 by lia.
+    rewrite N.mod_add by exact two32_ne0. apply N.mod_small. lia.
+Qed.
+
+Lemma NoDup_map_inj : forall (A B : Type) (f : A -> B) l,
+  (forall x y, In x l -> In y l -> f x = f y -> x = y) -> NoDup l -> NoDup (map f l).
+Proof.
+  intros A B f. induction l as [|x l IH]; intros Hinj Hn; cbn [map]; [constructor|].
+  inversion Hn as [|y l' Hx Hl]; subst. constructor.
+  - intros Hin. apply in_map_iff in Hin. destruct Hin as [y [Ey Hy]].
+    assert (y = x) by (apply Hinj; [right; exact Hy|left; reflexivity|exact Ey]).
+    subst y. contradiction.
+  - apply IH; [|exact Hl]. intros a b Ha Hb. apply Hinj; right; assumption.
+Qed.
+
+Lemma next_free_total : forall kv id,
+  sorted_keys kv -> id < two32 -> N.of_nat (length kv) < two32 ->
+  next_free (S (length kv)) kv id <> None.
+Proof.
+  intros kv id _ Hid Hlen Hnone.
+  pose proof (next_free_none _ _ _ Hnone) as Hall.
+  set (f := fun i : nat => k_known ((id + N.of_nat i) mod two32)).
+  assert (Hnd : NoDup (map f (seq 0 (S (length kv))))).
+  { apply NoDup_map_inj; [|apply seq_NoDup].
+    intros i j Hi Hj E. apply in_seq in Hi, Hj. unfold f, k_known in E. apply (f_equal (@tl N)) in E. cbn [tl] in E.
+    apply u32be_inj in E; [|apply mod_lt32|apply mod_lt32].
+    destruct (mod_cases (id + N.of_nat i)) as [Ei|[Li Ei]]; [lia| |];
+      (destruct (mod_cases (id + N.of_nat j)) as [Ej|[Lj Ej]]; [lia| |]); lia. }
+  assert (Hincl : incl (map f (seq 0 (S (length kv)))) (map fst kv)).
+  { intros k Hk. apply in_map_iff in Hk. destruct Hk as [i [<- Hi]]. apply in_seq in Hi.
+    assert (Hh : has kv (f i) = true) by (apply Hall; lia).
+    unfold has in Hh. destruct (get kv (f i)) as [c|] eqn:G; [|discriminate].
+    apply get_In in G. apply in_map_iff. exists (f i, c). split; [reflexivity|exact G]. }
+  pose proof (NoDup_incl_length Hnd Hincl) as Hle.
+  rewrite !map_length, seq_length in Hle. lia.
+Qed.
+
+Print Assumptions xrun_fst.
+Print Assumptions xrun_snd.
+Print Assumptions market_ids.
+Print Assumptions create_market_fresh.
+Print Assumptions next_market_id_spec.
+Print Assumptions next_free_total.
+Print Assumptions commitments_consistent.
+Print Assumptions commit_keys_nonempty.
+Print Assumptions paging_complete_commitments.
+Print Assumptions commitment_entries_listed.
+Print Assumptions example_chistory_ok.
